@@ -329,6 +329,8 @@ func applyDocEdit(doc *JV, op Op) bool {
 				return true
 			}
 		}
+	case "scenario":
+		return applyScenario(doc, []int64{op.I, op.J, op.N})
 	case "inboxweird":
 		for _, pk := range []string{"customer", "supplier"} {
 			if p := doc.Get(pk); p != nil {
@@ -394,7 +396,7 @@ func applyDocEdit(doc *JV, op Op) bool {
 	return false
 }
 
-var editKinds = []string{"qty", "price", "rmline", "dupline", "note", "rounding", "custname", "code", "breakdown", "linedisc", "linecharge", "docdisc", "advances", "codeweird", "addrweird", "taxidweird", "amountprec", "mixrates", "mixrates", "rmdefaulted", "sloppy", "sloppy", "sloppy", "inboxweird"}
+var editKinds = []string{"qty", "price", "rmline", "dupline", "note", "rounding", "custname", "code", "breakdown", "linedisc", "linecharge", "docdisc", "advances", "codeweird", "addrweird", "taxidweird", "amountprec", "mixrates", "mixrates", "rmdefaulted", "sloppy", "sloppy", "sloppy", "inboxweird", "scenario", "scenario"}
 
 func genEdit(r *rand.Rand, id int) Op {
 	k := Pick(r, editKinds)
@@ -426,6 +428,8 @@ func genEdit(r *rand.Rand, id int) Op {
 		op.S2 = Pick(r, []string{"type", "currency", "$regime", "type", "tax"})
 	case "sloppy":
 		op.I, op.J = int64(r.IntN(1<<16)), int64(r.IntN(7))
+	case "scenario":
+		op.I, op.J, op.N = int64(r.IntN(1<<12)), int64(r.IntN(1<<12)), int64(r.IntN(1<<12))
 	case "inboxweird":
 		op.S2 = Pick(r, []string{"0088:0192:123456", "0088:4012345678901", " 9915:abc ", "ab1234:xyz", "1234:"})
 	}
